@@ -4,6 +4,7 @@ import (
 	"flag"
 	"fmt"
 	"os"
+	"path/filepath"
 	"strings"
 	"time"
 )
@@ -57,6 +58,15 @@ func devMain(args []string) {
 	var results []*FuncResult
 	for _, c := range w.All {
 		if *only != "" && !strings.Contains(c.Block.Key(), *only) {
+			continue
+		}
+		wanted := fs.NArg() == 0
+		for _, a := range fs.Args() {
+			if filepath.Clean(filepath.Join(repoRoot, a)) == c.CF.Dir {
+				wanted = true
+			}
+		}
+		if !wanted {
 			continue
 		}
 		t1 := time.Now()
